@@ -131,6 +131,13 @@ func stat2(name, param string, s sdf.SDF2, which string, cells int, radius, peri
 
 func c05Scenes(args []string) error {
 	rnd := rand.New(rand.NewSource(seed()))
+	// a ball whose surface clips the corner of an octree cube by a few millionths of its side
+	for _, e := range []float64{3e-6, 1e-5, 2e-5} {
+		for n := 1; n <= 3; n++ {
+			bb := sdf.NewBox3(v3.Vec{X: 4.04, Y: 4.04, Z: 4.04}, v3.Vec{X: 8, Y: 8, Z: 8})
+			emit(stat3("tight-ball", fmtf(float64(n), e), ball3{v3.Vec{X: 3, Y: 3, Z: 3}, 5*math.Sqrt(3) + e*math.Pow(2, float64(n)), bb}, "mco", 4))
+		}
+	}
 	reps := 3
 	if tier() == "thorough" {
 		reps = 12
